@@ -278,6 +278,149 @@ def show_args_cmp(model: str, real: dict):
     return None
 
 
+def fresh_pool_map(fn, items, workers=16):
+    """Like core.pool_map, but every item runs in a process of its own (maxtasksperchild=1): a baseline must not
+    inherit module-level state from an item the same pool worker happened to run before."""
+    import multiprocessing as mp
+
+    if not items:
+        return []
+    with mp.get_context("fork").Pool(min(workers, len(items)), maxtasksperchild=1) as p:
+        return p.map(fn, items, chunksize=1)
+
+
+# ============================================================================ one input at a time (GHE level)
+BASE_X = {"fluid": ("Water", 0.0), "fluid_temp": 20.0, "grout": (1.0, 3901000.0), "soil": (2.0, 2343493.0, 18.3), "pipe_k": 0.4,
+          "pipe_rho_cp": 1542000.0, "pipe_geom": (0.03404, 0.04216, 0.01856, 1.0e-6), "borehole": (100.0, 2.0, 0.14), "flow": 0.5}
+
+# name -> (overrides of X, overrides of X'): the two configurations differ in exactly this one physical input
+ONE_INPUT = {
+    "grout_rho_cp": ({}, {"grout": (1.0, 3000000.0)}),
+    "grout_k": ({}, {"grout": (1.3, 3901000.0)}),
+    "soil_rho_cp": ({}, {"soil": (2.0, 2000000.0, 18.3)}),
+    "soil_k": ({}, {"soil": (2.6, 2343493.0, 18.3)}),
+    "undisturbed_temp": ({}, {"soil": (2.0, 2343493.0, 16.0)}),
+    "pipe_rho_cp": ({}, {"pipe_rho_cp": 1800000.0}),
+    "pipe_k": ({}, {"pipe_k": 0.45}),
+    "pipe_roughness": ({}, {"pipe_geom": (0.03404, 0.04216, 0.01856, 1.0e-5)}),
+    "fluid_concentration": ({"fluid": ("PropyleneGlycol", 20.0)}, {"fluid": ("PropyleneGlycol", 30.0)}),
+    "fluid_temperature": ({}, {"fluid_temp": 10.0}),
+    "borehole_radius": ({}, {"borehole": (100.0, 2.0, 0.15)}),
+    "burial_depth": ({}, {"borehole": (100.0, 4.0, 0.14)}),
+    "pipe_inner_diameter": ({}, {"pipe_geom": (0.0300, 0.04216, 0.01856, 1.0e-6)}),
+    "pipe_outer_diameter": ({}, {"pipe_geom": (0.03404, 0.0440, 0.01856, 1.0e-6)}),
+    "shank_spacing": ({}, {"pipe_geom": (0.03404, 0.04216, 0.025, 1.0e-6)}),
+    "flow": ({}, {"flow": 0.3}),
+}
+QUICK_INPUTS = ["grout_rho_cp", "soil_rho_cp", "pipe_rho_cp", "fluid_concentration", "borehole_radius", "grout_k"]
+
+
+def build_x(phys, pipe_kind, coords, scale, months=12):
+    """A real GHE from explicit physical inputs (every one of ONE_INPUT's is a parameter here)."""
+    from ghedesigner.borehole import GHEBorehole
+    from ghedesigner.enums import BHPipeType
+    from ghedesigner.gfunction import calc_g_func_for_multiple_lengths
+    from ghedesigner.ground_heat_exchangers import GHE
+    from ghedesigner.media import GHEFluid, Grout, Pipe, Soil
+    from ghedesigner.simulation import SimulationParameters
+    from ghedesigner.utilities import eskilson_log_times
+
+    fluid = GHEFluid(fluid_str=phys["fluid"][0], percent=phys["fluid"][1], temperature=phys["fluid_temp"])
+    grout, soil = Grout(*phys["grout"]), Soil(*phys["soil"])
+    h, d, dia = phys["borehole"]
+    borehole = GHEBorehole(h, d, dia / 2.0, x=0.0, y=0.0)
+    di, do, s, rough = phys["pipe_geom"]
+    n_u = 1 if pipe_kind == "SINGLEUTUBE" else 2
+    pipe = Pipe(Pipe.place_pipes(s, do / 2.0, n_u), di / 2.0, do / 2.0, s, rough, phys["pipe_k"], phys["pipe_rho_cp"])
+    sim = SimulationParameters(1, months, 35.0, 5.0, WINDOW[1], WINDOW[0])
+    bhe_type = BHPipeType[pipe_kind]
+    m_bh = phys["flow"] / 1000.0 * fluid.rho
+    loads = [x * scale for x in ghelib.atlanta_loads()]
+    g = calc_g_func_for_multiple_lengths(5.0, [WINDOW[0], (WINDOW[0] + WINDOW[1]) / 2, WINDOW[1]], borehole.r_b, borehole.D, m_bh, bhe_type,
+                                         eskilson_log_times(), coords, fluid, pipe, grout, soil)
+    return GHE(phys["flow"] * len(coords), 5.0, bhe_type, fluid, borehole, pipe, grout, soil, g, sim, loads)
+
+
+def observe_x(ghe, h):
+    """Everything a caller can see of a GHE built for one configuration: hybrid load, hybrid and hourly simulation, sizing."""
+    from ghedesigner.enums import TimestepType
+
+    sha = lambda xs: hashlib.sha1(repr([float(x) for x in xs]).encode()).hexdigest()
+    out = {"hybrid_load": sha(ghe.hybrid_load.load) + sha(ghe.hybrid_load.hour), "hybrid_load_len": len(ghe.hybrid_load.load),
+           "peak_durations": [float(x) for x in list(getattr(ghe.hybrid_load, "monthly_peak_cl_duration", []))[1:4] + list(getattr(ghe.hybrid_load, "monthly_peak_hl_duration", []))[1:4]][:8]}
+    ghe.bhe.b.H = h
+    r = ghe.simulate(TimestepType.HYBRID)
+    out["hybrid"] = [float(r[0]), float(r[1])]
+    out["hybrid_hp_eft"] = sha(ghe.hp_eft)
+    r = ghe.simulate(TimestepType.HOURLY)
+    out["hourly"] = [float(r[0]), float(r[1])]
+    out["hourly_hp_eft"] = sha(ghe.hp_eft)
+    ghe.size(TimestepType.HYBRID)
+    out["sized_H"] = repr(float(ghe.bhe.b.H))
+    out["sized_hp_eft"] = sha(ghe.hp_eft)
+    return out
+
+
+def oneinput_worker(job):
+    """In ONE process: (optionally) build and use configuration X, then directly afterwards configuration X' on new objects."""
+    os.environ["OMP_NUM_THREADS"] = "1"
+    warnings.filterwarnings("ignore")
+    coords = [tuple(c) for c in job["coords"]]
+    with ghelib.quiet():
+        try:
+            if job.get("first") is not None:
+                from ghedesigner.enums import TimestepType
+
+                gx = build_x(job["first"], job["pipe"], coords, job["scale"])
+                if job.get("mode") != "build-only":
+                    observe_x(gx, job["h"])
+                    # leave X as a project is usually left: last simulated at the height X' will be built with
+                    gx.bhe.b.H = job["second"]["borehole"][0]
+                    gx.simulate(TimestepType.HYBRID)
+            return {"ok": observe_x(build_x(job["second"], job["pipe"], coords, job["scale"]), job["h"])}
+        except Exception as e:  # an outcome, compared like any other
+            return {"raise": type(e).__name__ + ": " + str(e)[:80]}
+
+
+def oneinput_jobs(rng, tier):
+    names = list(QUICK_INPUTS) if tier == "quick" else list(ONE_INPUT)
+    if tier == "quick":
+        names += rng.sample([n for n in ONE_INPUT if n not in QUICK_INPUTS], 2)
+    jobs = []
+    for n in names:
+        ox, ox2 = ONE_INPUT[n]
+        for direction in ((0, 1) if tier == "thorough" else (rng.choice((0, 1)),)):
+            x, x2 = dict(BASE_X, **ox), dict(BASE_X, **ox2)
+            if direction:
+                x, x2 = x2, x
+            pipe = "SINGLEUTUBE" if tier == "quick" or rng.random() < 0.6 else rng.choice(["DOUBLEUTUBEPARALLEL", "DOUBLEUTUBESERIES"])
+            nx, ny = rng.choice([(1, 2), (2, 2), (2, 3)])
+            common = {"pipe": pipe, "coords": [(i * 5.0, j * 5.0) for i in range(nx) for j in range(ny)], "scale": round(nx * ny * rng.uniform(0.008, 0.02), 5),
+                      "h": rng.choice([100.0, 96.0, round(rng.uniform(70, 130), 1)]), "input": n, "direction": direction}
+            common["mode"] = rng.choice(["build-only", "use", "use"])   # X only constructed, or constructed, simulated, sized and re-simulated
+            jobs.append(dict(common, first=None, second=x2, role="baseline"))
+            jobs.append(dict(common, first=x, second=x2, role="after-X"))
+    return jobs
+
+
+def check_oneinput(ctx, jobs, results):
+    for k in range(0, len(jobs), 2):
+        (jb, rb), (ja, ra) = (jobs[k], results[k]), (jobs[k + 1], results[k + 1])
+        n = ja["input"]
+        ctx.case(("one-input", "ghe", n, ja["direction"], ja["pipe"]), True, {"one_input": n, "pipe": ja["pipe"], "h": ja["h"], "baseline": {kk: vv for kk, vv in rb.get("ok", rb).items() if kk in ("hybrid", "sized_H", "peak_durations")}})
+        ctx.count("one_input_ghe:" + n)
+        ctx.count("one_input_ghe_mode:" + ja["mode"])
+        if ra == rb:
+            continue
+        diffs = [kk for kk in set(ra.get("ok", {})) | set(rb.get("ok", {})) if ra.get("ok", {}).get(kk) != rb.get("ok", {}).get(kk)] or ["outcome"]
+        a, b = ra.get("ok", ra), rb.get("ok", rb)
+        ctx.finding(f"one-input-history:ghe:{n}",
+                    f"GHE for X' built and used directly after X (same process, new objects; X and X' differ only in {n}) differs from X' in a fresh process in {sorted(diffs)}: "
+                    f"hybrid EFT {a.get('hybrid')} vs {b.get('hybrid')}, sized H {a.get('sized_H')} vs {b.get('sized_H')}, peak durations {a.get('peak_durations', [])[:3]} vs {b.get('peak_durations', [])[:3]}",
+                    {"input": n, "X": ja["first"], "X_prime": ja["second"], "pipe": ja["pipe"], "coords": ja["coords"], "scale": ja["scale"], "h": ja["h"],
+                     "after_X": a, "fresh_process": b})
+
+
 # ============================================================================ GHE level
 def static_key_ghe(spec):
     return "|".join(["f", "p", "g", "s", "t", "l", str(spec["loadlen"]), str(spec["months"]), "35/1", "5/1",
@@ -834,6 +977,33 @@ def reuse_jobs(tier):
     return jobs
 
 
+def oneinput_mgr_jobs(rng, tier):
+    """Manager level: design X, then directly afterwards in the same process X' (one physical input changed) on a NEW manager,
+    or on the SAME manager through the one setter; compared with X' in a fresh process."""
+    phys = ghelib.default_physics()
+    base = {"phys": dict(phys), "pipe": "SINGLEUTUBE", "load_kind": "atlanta", "load_scale": 0.1, "months": 12, "max_eft": 35.0, "min_eft": 5.0,
+            "max_h": 135.0, "min_h": 60.0, "geom": ("NEARSQUARE", 5.0, 30.0), "flow": 0.5, "flow_type": "BOREHOLE"}
+    var = {"grout_rho_cp": ("grout", {"grout": (1.0, 3000000.0)}), "soil_rho_cp": ("soil", {"soil": (2.0, 2000000.0, 18.3)}),
+           "pipe_rho_cp": ("pipe", {"pipe_rho_cp": 1800000.0}), "fluid_concentration": ("fluid", {"fluid": ("PropyleneGlycol", 20.0)}),
+           "borehole_radius": ("bh", {"borehole": (96.0, 2.0, 0.15)}), "burial_depth": ("bh", {"borehole": (96.0, 4.0, 0.14)}),
+           "grout_k": ("grout", {"grout": (1.3, 3901000.0)}), "soil_k": ("soil", {"soil": (2.6, 2343493.0, 18.3)}),
+           "undisturbed_temp": ("soil", {"soil": (2.0, 2343493.0, 16.0)}), "pipe_k": ("pipe", {"pipe_k": 0.45})}
+    plan = [("grout_rho_cp", "same"), ("soil_rho_cp", "new")] if tier == "quick" else [(n, w) for n in var for w in ("same", "new")]
+    jobs = []
+    for n, where in plan:
+        setter, over = var[n]
+        final = dict(base, phys=dict(phys, **over))
+        cname = f"one-input:{n}:{where}"
+        jobs.append({"name": "baseline", "config": cname, "steps": [("new",)] + full_run(0, final, target=True)})
+        if where == "new":
+            steps = [("new",)] + full_run(0, base) + [("new",)] + full_run(1, final, target=True)
+        else:
+            steps = [("new",)] + full_run(0, base) + [(s_, 0, pay) for s_, pay in setters_of(final) if s_ == setter]
+            steps += [("design", 0, (final["flow"], final["flow_type"]), final), ("find", 0, True)]
+        jobs.append({"name": f"one-input-after-X-{where}-manager", "config": cname, "steps": steps, "one_input": n})
+    return jobs
+
+
 def model_line(res):
     sims, _ = sims_table(res["trace"])
     return " ".join(["apirun"] + res["ops"] + ["--"] + [f"{k}={a}:{b}" for k, (a, b) in sims.items()] + ["--"] +
@@ -974,7 +1144,7 @@ def run(ctx: core.Ctx):
     ctx.rule = ("GHE level: a case = one call sequence (setH / simulate HYBRID|HOURLY / size / compute_g_functions / assigning another g-function table; random of length <= 6, plus sequences that repeat a height and method around each state-changing operation) on one real GHE "
                 "(pipe kind, field size, 1 or 3 stored heights); distinct = distinct (pipe, boreholes, curves, operation sequence); every simulate/size is "
                 "non-trivial (compared with the same call on a GHE rebuilt from scratch).  Manager level: a case = one history variant of one configuration "
-                "(find twice, redesign, rebuilt manager, permuted/repeated setters, another design first on the same/another manager, nominal height, a manager re-used with only loads and/or geometry re-set after a first design that may raise); "
+                "(find twice, redesign, rebuilt manager, permuted/repeated setters, another design first on the same/another manager, nominal height, a manager re-used with only loads and/or geometry re-set after a first design that may raise, a design run directly after one that differs in exactly one physical input). One-input family, GHE level: a case = (input, direction, pipe kind), X then X' on new objects in one process vs X' in a fresh process; "
                 "non-trivial when the target find_design ran a search (>= 3 excess evaluations)")
     ctx.trusted_base += [
         "translator plug-in translate/gen_api.py (slot lists of set_design/find_design, writers of .H, keep_contour defaults, simulate's use of self.times)",
@@ -1006,7 +1176,7 @@ def run(ctx: core.Ctx):
     specs += gen_ghe_specs(rng, 10 if quick else 80, ctx.tier)
     import time as _t
     t0 = _t.time()
-    results = core.pool_map(ghe_worker, specs)
+    results = fresh_pool_map(ghe_worker, specs)
     ctx.extra["ghe_level_s"] = round(_t.time() - t0, 1)
     ctx.log(f"GHE level: {len(specs)} sequences in {ctx.extra['ghe_level_s']} s")
     lines, speclines = [], []
@@ -1017,6 +1187,13 @@ def run(ctx: core.Ctx):
     for i, (sp, rs_) in enumerate(zip(specs, results)):
         check_ghe(ctx, sp, rs_, mo[i] if mo else None, mo[len(specs) + i] if mo else None)
     ctx.count("ghe_sequences", len(specs))
+
+    # ------------------------------------------------------------------ one input at a time, GHE level
+    t0 = _t.time()
+    oj = oneinput_jobs(rng, ctx.tier)
+    check_oneinput(ctx, oj, fresh_pool_map(oneinput_worker, oj))
+    ctx.extra["one_input_ghe_s"] = round(_t.time() - t0, 1)
+    ctx.log(f"one input at a time (GHE level): {len(oj) // 2} pairs in {ctx.extra['one_input_ghe_s']} s")
 
     # ------------------------------------------------------------------ manager histories
     cfgs, others = base_configs(rng, ctx.tier)
@@ -1035,12 +1212,13 @@ def run(ctx: core.Ctx):
             j["config"] = cname
             jobs.append(j)
     jobs += reuse_jobs(ctx.tier)
+    jobs += oneinput_mgr_jobs(rng, ctx.tier)
     jobs.sort(key=lambda j: -sum(1 for st in j["steps"] if st[0] == "find"))
     # boundary: nominal height 0 (constructor raises at the height it finds)
     c0 = dict(cfgs["near-square"], nominal_height=0.0)
     jobs.append({"name": "nominal-height-0", "config": "near-square", "steps": [("new",)] + full_run(0, c0, target=True), "bad": [0.0], "expect_raise": True})
     t0 = _t.time()
-    res = core.pool_map(mgr_worker, jobs)
+    res = fresh_pool_map(mgr_worker, jobs)
     ctx.extra["manager_level_s"] = round(_t.time() - t0, 1)
     ctx.log(f"manager level: {len(jobs)} histories in {ctx.extra['manager_level_s']} s")
     ctx.extra["implementation_module"] = res[0]["module"] if res else None
@@ -1057,6 +1235,8 @@ def run(ctx: core.Ctx):
                   "H": tf[-1]["result"]["H"] if tf and "result" in tf[-1] else None})
         ctx.count("variant:" + j["name"].rstrip("0123456789.-"))
         ctx.count("config:" + j["config"])
+        if j.get("one_input"):
+            ctx.count("one_input_manager:" + j["one_input"])
         if j.get("reuse"):
             ctx.count("reuse:" + j["reuse"] + ":first=" + r["finds"][0]["outcome"] + ",second=" + r["finds"][-1]["outcome"])
         if j.get("expect_raise"):
